@@ -409,9 +409,9 @@ func (fv *FnV) evalExternal(st *State, call *ast.CallExpr, o *types.Func) []Val 
 	case "math.Inf":
 		fv.tag("inf-as-huge-real")
 		fv.smt.declareFun("G_posInf", "(declare-const G_posInf Real)")
-		fv.smt.declareFun("ax_posInf", "(assert (> G_posInf 1e300))")
+		fv.smt.declareFun("ax_posInf", "(assert (> G_posInf 1000000000000000000000000000000000000000000000000000000000000000000000000000000000000000000000000000000000000000000000000000000000000000000000000000000000000000000000000000000000000000000000000000000000000000000000000000000000000000000000000000000000000000000000000000000000000000000000000000000000000.0))")
 		fv.smt.declareFun("G_negInf", "(declare-const G_negInf Real)")
-		fv.smt.declareFun("ax_negInf", "(assert (< G_negInf (- 1e300)))")
+		fv.smt.declareFun("ax_negInf", "(assert (< G_negInf (- 1000000000000000000000000000000000000000000000000000000000000000000000000000000000000000000000000000000000000000000000000000000000000000000000000000000000000000000000000000000000000000000000000000000000000000000000000000000000000000000000000000000000000000000000000000000000000000000000000000000000000.0)))")
 		return []Val{{fmt.Sprintf("(ite (>= %s 0) G_posInf G_negInf)", a(0)), realT}}
 	case "math.Sqrt":
 		fv.uninterp("m_sqrt", []string{"Real"}, "Real")
